@@ -9,3 +9,4 @@ for p in "$@"; do
   echo "== $(basename $d) vs $p: exit $rc"; grep -E "^VIOLATION|^KNOWN|^C[0-9]+ quick" /tmp/try_$p.out; grep -E "violated:|TOOL-ERROR|UNDECIDED" /tmp/try_$p.err | cut -c1-220 | head -8
 done
 git -C /repo checkout -- .
+git -C /verif checkout -- evidence 2>/dev/null
